@@ -4,10 +4,25 @@
       VARIANT ::= concrete | assert | ref | box | arc | option | boxdyn | arcdyn | assertdyn | slot   the ctxt wrapper /
                   runtime the harness drives; transparent, the model does not depend on it      sorted; REC = kind.tag.trace.parent.span
                                                                         (decimal, `-` = absent)
+                | rngsome | rngnone | rngbox | rngarc | rngassert | rngdyn     how the runtime holds its rng (`Tree.hold`):
+                                                                        transparent, except `Option::None` = no readings
+                | tp                                                    `TraceparentCtxt<ThreadLocalCtxt>`: same records on
+                                                                        the class `tpClass`; other cases are rejected (bad-op)
+    (c04 tp (incoming) (T…) (header TRACE SPAN FLAGS push|push2)): the incoming ids arrive as a W3C traceparent with a
+                  sampled (odd) flags byte, pushed with `Traceparent::push` / `emit_traceparent::push(tp, tracestate)`
       IDVAL ::= (trace N) | (span N) | (num N) | (text xHEX)
       T ::= (event EID (props (xKEY IDVAL)…)) | (cur CID)
           | (span ID KIND EN RT RS (props (xKEY IDVAL)…) T…)    KIND ::= sync|newspan|direct|async|anewspan|adirect
                                                                        | (rsync|rsync2|rasync|rasync2).(ok|errq|errret)
+                                                                       | manual | amanual | manual2
+                                                                 (manual = the hand-rolled span API: `SpanCtxt::current`,
+                                                                  `new_child` / `new_root`, `SpanCtxt::push`, a `Span::new`
+                                                                  event emitted inside the frame; manual2 assembles the ids
+                                                                  with `TraceId::random`, `Rng::fill`, `SpanId::new`,
+                                                                  `SpanCtxt::new`; EN = false pushes `SpanCtxt::empty()` and
+                                                                  emits nothing. Same tree node as every other span: the
+                                                                  frame lacks the `id` ctxt prop, which no record shows —
+                                                                  the span event carries `id` as its own property.)
                                                                  (Result-aware macro completion; the exit path is
                                                                   invisible to the model: completion is inside the frame)
                                                                  EN ::= true|false   RT, RS ::= none | N
@@ -117,22 +132,46 @@ def signature (line : String) (ts : List Tree) (incoming : List (String × IdVal
     let cs := line.toList
     let has (s : String) : String := if hasInfix s.toList cs then "1" else "0"
     let inc := if incoming.isEmpty then "0" else "1"
-    s!"depth={min d 6},in={inc},dis={has " false "},async={has " async "},par={has "(par "},hop={has "(hop "},exec={has "(exec "},none={has " none "},panic={has "(panic)"},res={has " rsync"},ares={has " rasync"},err={has ".err"}"
+    s!"depth={min d 6},in={inc},dis={has " false "},async={has " async "},par={has "(par "},hop={has "(hop "},exec={has "(exec "},none={has " none "},panic={has "(panic)"},res={has " rsync"},ares={has " rasync"},err={has ".err"},man={has " manual"},aman={has " amanual "},yield={has "(yield)"}"
 
 /-- the ctxt wrapper / runtime variant the harness drives; the model is the same for all of them
     (C03 `wrappers_transparent`, `erased_storage_identity`) -/
 def variants : List String :=
   ["concrete", "assert", "ref", "box", "arc", "option", "boxdyn", "arcdyn", "assertdyn", "slot"]
 
+/-- how the variant's runtime holds its rng (theorems `rng_holders_transparent`, `rng_none_draws_nothingL`) -/
+def rngHolder? : String → Option RngHolder
+  | "rngsome" => some .some_
+  | "rngnone" => some .none_
+  | "rngbox" => some .box
+  | "rngarc" => some .arc
+  | "rngassert" => some .assertInternal
+  | "rngdyn" => some .erased
+  | "slot" => some .erased
+  | "tp" => some .ref
+  | v => if variants.contains v then some .ref else none
+
 def runC04 (line : String) : String :=
   let parsed := match Sexp.parse line with
-    | some (.list [.atom "c04", inc, .list ts]) => some (inc, ts)
-    | some (.list [.atom "c04", .atom v, inc, .list ts]) => if variants.contains v then some (inc, ts) else none
+    | some (.list [.atom "c04", inc, .list ts]) => some ("concrete", RngHolder.ref, inc, ts)
+    | some (.list [.atom "c04", .atom v, inc, .list ts]) => (rngHolder? v).map fun h => (v, h, inc, ts)
+    -- the incoming ids as a sampled W3C traceparent pushed with `Traceparent::push` / `emit_traceparent::push`
+    -- (under `tp`, instead of incoming props): the same as the two ids pushed as typed props
+    | some (.list [.atom "c04", .atom "tp", .list [.atom "incoming"], .list ts, .list [.atom "header", tr, sp, fl, .atom via]]) =>
+      match tr.nat?, sp.nat?, fl.nat? with
+      | some tr, some sp, some fl =>
+        if (via == "push" || via == "push2") && 0 < tr && tr < 2 ^ 128 && 0 < sp && sp < 2 ^ 64 && fl < 256 && fl % 2 == 1 then
+          some ("tp", RngHolder.ref,
+            Sexp.list [.atom "incoming", .list [.atom (atomOfString "trace_id"), .list [.atom "trace", .atom (toString tr)]],
+                                         .list [.atom (atomOfString "span_id"), .list [.atom "span", .atom (toString sp)]]], ts)
+        else none
+      | _, _, _ => none
     | _ => none
   match parsed with
-  | some (inc, ts) =>
-    match props? "incoming" inc, trees? 0 ts with
+  | some (v, h, inc, ts) =>
+    match props? "incoming" inc, (trees? 0 ts).map (holdL h) with
     | some incoming, some ts =>
+      if v == "tp" && !tpClass incoming ts then "bad-op" else
       -- the outer `Frame::push(ctxt, incoming).call(..)` on thread 0, context 0, frame handle 0
       let s0 := St.init IdVal true
       let s1 := step s0 (.open 0 0 0 Kind.push incoming)
